@@ -225,14 +225,15 @@ def run(ctx):
         run_cfg(ctx, rp, "c6", h2, ["init"], ["val", "dtor"], co=["h2"], bl=["h1"], po=["h2"], copies=2, handles=2, env=env, must=["GetPromise"])
         run_cfg(ctx, rp, "t3", ["h1", "h2", "h3"], ["fn"], ["val"], co=["h2"], bl=["h3"], copies=2, handles=1, env=env)
         run_cfg(ctx, rp, "r1", h1, ["fn", "setval", "late", "retfut"], ALL_KINDS, co=h1, bl=h1, copies=1, handles=2, rounds=3,
-                ways=ALL_WAYS, env=env, max_paths=10000, must=["ReArmShl", "ReArmAssign"])
+                ways=ALL_WAYS, env=env, max_paths=6000, must=["ReArmShl", "ReArmAssign"])
         run_cfg(ctx, rp, "r2", h2, ["fn", "init"], ["val", "dtor"], co=["h1"], bl=["h2"], po=["h2"], copies=2, handles=1, rounds=2,
-                ways=ALL_WAYS, env=env, max_paths=10000, must=["ReArmShl"])
+                ways=ALL_WAYS, env=env, max_paths=6000, must=["ReArmShl"])
         # larger bounds, specification only
         tlc_only(ctx, "big", h2, ["fn"], ["val"], co=h2, bl=h2, cb=[], po=h2, copies=2, handles=2)
     ctx.assume("compare_exchange_weak does not fail spuriously (x86-64 lock cmpxchg); weak CAS is executed as strong under the controlled scheduler")
     ctx.assume("std::shared_ptr reference counting (libstdc++ atomics, not instrumented) is thread safe by itself: copy / drop of a handle and the tracer's release are atomic inside a local step; sequentially consistent interleavings only (memory order is C03's subject)")
     ctx.assume("one resolver thread, one promise object; each handle thread makes each kind of call (co_await, wait(), callback subscribe, ready()/value()) at most once; bounds MaxCopies/MaxHandles per configuration")
+    ctx.assume("rounds: a resolved state is re-armed (operator<< with a pending or ready future through any handle; assignment of a newly constructed shared_future by the sole holder of one handle) only when the resolver is done and every thread is between two calls -- re-arming needs exclusive access to the future (result_of rebuilds it in place); get_promise() on a resolved state is illegal (future.h:283-284) and not modelled; at most MaxRounds = 3 rounds")
     ctx.assume("handles are handed to other threads with the synchronisation the user must provide anyway (the scheduler's token passing)")
     ctx.assume("the callback awaiter keeps no handle and reads the result through the future reference: relies on the tracer being released last in the chain walk (stronger than the documented rule that every awaiter holds a handle)")
     ctx.assume("plain build observes the use count through a std::weak_ptr (keeps the memory block, not the object); the ASan build has no weak_ptr and asks ASan whether the control block has been freed")
